@@ -215,7 +215,9 @@ pub fn typed(p: &Parts) -> (String, Verdict) {
             ("BooleanBuffer::new+BooleanArray::new", r)
         }
         FixedSizeBinary(n) => {
-            if nb != 1 || nc != 0 { return na("FixedSizeBinaryArray::try_new_with_len"); }
+            // the constructor has no offset argument: an offset only shows as a slice of the values buffer,
+            // so a candidate whose len + offset overflows cannot be expressed
+            if nb != 1 || nc != 0 || p.len.checked_add(p.offset).is_none() { return na("FixedSizeBinaryArray::try_new_with_len"); }
             let n = *n;
             let w = n.max(0) as usize;
             let r = match (typed_nulls(p), p.offset.checked_mul(w)) {
